@@ -302,6 +302,12 @@ def catalogue_c16(tier):
                timed(dict(case('c16/debounce-%d-complete-while-pending-slow-consumer' % d, T('debounce', d, ins=[S(1)]), [[E(1, 'n', 11), SL(d + 20), E(1, 'n', 12), E(1, 'c'), SL(8 * d)]], tags=['subset']), slow_item=12, slow_ms=3 * d), d),
                timed(dict(case('c16/debounce-%d-slow-consumer' % d, T('debounce', d, ins=[S(1)]), [[E(1, 'n', 11), SL(d + 20), E(1, 'n', 12), SL(d + 20), E(1, 'n', 13), E(1, 'c'), SL(8 * d)]], tags=['subset']), slow_item=11, slow_ms=3 * d), d),
                timed(case('c16/sample-%d' % d, T('sample', ins=[S(1), S(2)]), [[E(1, 'n', 11), SL(40), E(1, 'n', 12), SL(90), E(1, 'n', 13), SL(110), E(1, 'c')], [SL(90), E(2, 'n', 0), SL(110), E(2, 'n', 0), SL(40), E(2, 'n', 0)]], tags=['subset']), d)]
+        if d == 100 or tier != 'quick':
+            # the same sample / debounce observable subscribed again after the first subscriber left with an item still pending:
+            # the second subscriber's ticks deliver only what its own subscription received
+            SUB2, U1 = {'op': 'sub', 'u': 2}, {'op': 'unsub', 'u': 1}
+            cs += [timed(case('c16/sample-%d-resubscribed' % d, T('sample', ins=[S(1), S(2)]), [[E(1, 'n', 11), U1, SUB2, E(2, 'n', 0), E(1, 'n', 12), E(2, 'n', 0), E(2, 'n', 0)]], tags=['subset', 'resub']), d),
+                   timed(case('c16/debounce-%d-resubscribed' % d, T('debounce', d, ins=[S(1)]), [[E(1, 'n', 11), U1, SUB2, SL(d + d // 2), E(1, 'n', 12), SL(2 * d), {'op': 'unsub', 'u': 2}, SL(2 * d)]], tags=['subset', 'resub']), d)]
     return cs
 
 
